@@ -250,6 +250,8 @@ def run_cell(cell, unit_c_path, workdir, log):
                 continue
             results, msgs, status = parse_cbmc_json(outp)
             joined = "\n".join(msgs)
+            if rc not in (0, 10):
+                results = None   # cbmc aborted (internal error / out of memory): whatever it printed is not a verdict
         if results is None:
             att["outcome"] = "error: " + " | ".join((joined or err).strip().splitlines()[-2:])[-400:]
             res["attempts"].append(att)
